@@ -628,7 +628,7 @@ pub fn run(args: &Args) -> i32 {
     let mut tot = Totals::default();
     let mut descs = serde_json::Map::new();
     let mut all_done = true;
-    let mut depth1_done = true;
+    let mut depth1_done = false;
     for sp in &sps {
         let now = t0.elapsed().as_secs_f64();
         let deadline = now + (wall_cap_s - now).max(0.0) * sp.wall_share;
@@ -637,7 +637,7 @@ pub fn run(args: &Args) -> i32 {
             run.cap_hit(c);
             all_done = false;
         }
-        depth1_done &= d["completed_depth"].as_u64().unwrap_or(0) >= 1 || std::env::var("C08_DEPTH").is_ok();
+        depth1_done |= d["completed_depth"].as_u64().unwrap_or(0) >= 1 || std::env::var("C08_DEPTH").is_ok();
         descs.insert(sp.name.to_string(), d);
     }
     if std::env::var("VERIF_PROGRESS").is_ok() {
@@ -681,7 +681,7 @@ pub fn run(args: &Args) -> i32 {
         run.fail("state", key, x.msg, case_json(x.start, &x.ops, x.req.as_ref(), x.level));
     }
     // Vacuity guards. Outcomes that need depth 2-3 are demanded only when the search completed.
-    run.require(depth1_done || run.failure_count() > 0, "the wall budget was exhausted before depth 1 of a search completed (machine too loaded): nothing meaningful explored");
+    run.require(depth1_done || run.failure_count() > 0, "the wall budget was exhausted before depth 1 of any search completed (machine too loaded): nothing meaningful explored");
     let debug_run = std::env::var("C08_DEPTH").is_ok() || std::env::var("C08_NOEVAL").is_ok();
     let has = |k: &str| outcomes.contains_key(k) || run.failure_count() > 0 || debug_run;
     for k in [
